@@ -455,6 +455,7 @@ def contracts():
     cs += [JoinArguments(), ArgumentsFor()]
     from contracts import c13_ext, c13_runtime, c13_dag, c13_degree
     cs += c13_ext.contracts()
+    cs += c13_ext.field_contracts()
     cs += c13_runtime.contracts()
     cs += c13_dag.contracts()
     cs += c13_degree.contracts()
@@ -473,6 +474,8 @@ TRUSTED = ['pyvc symbolic executor and its Python model; dicts with symbolic key
            'dtype promotion with promote(d, d) == d, spaces = union, arguments = _join_arguments (REAL body) of the operands; numpy.sum over the axes len(s)..len(s)+len(t)-1 of shape s + t '
            'leaves s and keeps int/float/complex dtype, spaces, arguments; util.sum = functools.reduce(operator.add) (TypeError when empty) -- cross-checked in native/axioms_c13.py',
            'tuple(g(n) for n in shape) over a shape of unknown rank is the elementwise map (g evaluated once on a generic element); evaluable.Argument/constant are recorded, not executed',
+           'function arrays of known rank (field/dotarg): Array.transpose(axes) permutes the shape, function._append_axes(a, s) has shape a.shape + s, `*` broadcasts axis by axis from the '
+           'right (ValueError when two lengths differ and neither is 1), numpy.sum(a, axis) removes that axis; dtype/arguments as above -- cross-checked in native/axioms_c13.py',
            # c13_runtime
            '_pyast expression builders (Variable, LiteralStr, BinOp, get_attr, call, get_item) denote the Python expressions they print; _BlockBuilder.assign_to/if_/raise_ emit '
            '`lhs = rhs` / `if c:` / `raise e` (their locking discipline is C16, faithful printing is C02: not applicable); builder.compile(self.shape) is a variable holding the declared shape; '
@@ -495,13 +498,14 @@ ASSUMPTIONS = ['names, shapes, dtypes are arbitrary values with equality (uninte
                'c13_degree: index arrays of a Monomial are constants (call sites evaluable.factor and Monomial._derivative); for LoopConcatenate a loop length that depends on the '
                'argument makes concat_length depend on it (call site evaluable.loop_concatenate); Multiply/Add have exactly two operands (class invariant); '
                'BOUNDED: Monomial with <= 3 args, exponent of Power under <= 1 Cast',
+               'BOUNDED (field/dotarg): 0..2 arrays of rank 1..2, extra shape of rank 0..1, each array depending on one argument; lengths symbolic and >= 0',
                'Argument._compile: `shape`, the variable for the node and its block come from the builder (C16 / C02 territory)']
 NOT_COVERED = ['that lowering evaluates to the substituted value on real arrays (semantic; needs array semantics) -- covered only structurally: evaluable.replace_arguments rebuilds the DAG with '
                'the replacement objects in place (bounded DAG family)',
                'values of derivative / linearize (only announced shape, dtype, spaces, arguments and the evaluable target are proved; values only in the native replays)',
                'evaluable.factor itself (its queue loop needs eval_once, sparse extraction and simplification): only its ingredients zero_all_arguments, argument_degree, Monomial._derivative; '
                'function.factor/_Factor',
-               'function.field / dotarg (needs the metadata of transpose, _append_axes and numpy.sum for tuple shapes: not done)',
+               'function.field / dotarg beyond two arrays of rank <= 2 (bounded configurations); its value (inner product) only in the native replay',
                'broadcast/promotion metadata of function arrays in general (assumed, see TRUSTED); _Replace.lower / _Derivative.lower',
                'memoisation of irreducible objects in shallow_replace (str, type objects are visited once per occurrence: harmless, the callable is pure)',
                'the exact degree (argument_degree is only proved to be an upper bound; e.g. u**0 is declined because the zero exponent simplifies to Zeros, not Constant)']
